@@ -91,6 +91,12 @@ def main():
             hits = common.grep_forbidden(common.lean_files(list(mod.LEAN_MODULES)))
             if hits:
                 broken.append('forbidden tokens: ' + '; '.join(hits[:5]))
+            if args.tier == 'thorough':
+                # independent re-check of the compiled .olean files of the property modules
+                rc, out = common.run(['lake', 'env', 'leanchecker'] + list(mod.LEAN_MODULES), cwd=common.LEAN, timeout=3000)
+                proof_notes.append('leanchecker rc=%d' % rc)
+                if rc != 0:
+                    broken.append('leanchecker rejected the compiled modules: ' + out[-300:])
     fp_cur, drift = common.fingerprint_drift(prop, getattr(mod, 'FINGERPRINT', {}))
     n = mod.N[args.tier]
     if drift and args.tier == 'quick':
